@@ -2,7 +2,10 @@ module verif/mc
 
 go 1.23.0
 
-require github.com/matrix-org/gomatrixserverlib v0.0.0
+require (
+	github.com/matrix-org/gomatrixserverlib v0.0.0
+	gopkg.in/macaroon.v2 v2.1.0
+)
 
 require (
 	github.com/hashicorp/go-set/v3 v3.0.0 // indirect
